@@ -33,4 +33,7 @@ theorem C15_like_is_not_prefix :
       [.set "remotes/myXrepo/x" [1], .filterKey ["remotes/my_repo/"] []] :=
   like_is_not_prefix
 
+/-- removing a remote filters on `remotes/<r>/`, a prefix that ends at a path boundary -/
+theorem C15_fact_remotePrefixBoundary : Facts.remoteRefsPrefixEndsWithSlash = true := by decide
+
 end Wrgl
